@@ -66,6 +66,7 @@ SERS = [
 
 FIXED = {(2, 3): [0b011101, 0b000101], (3, 2): [0b100110, 0b001101], (3, 3): [0b100010101, 0b000110011]}
 GEN = 'verif-harness c14'
+COLON = 'space-before-colon'
 
 
 # ------------------------------------------------------------------------- cases
@@ -333,55 +334,76 @@ def check(case, acc, tmp):
         outs.append(p)
         return p
 
-    def refused(vtag, fn, out=None):
+    def family(members, all_label):
+        """members: [(label, call)], call(bad_) runs one member of a family of equivalent
+        requests (id forms, input forms, JSON spellings) and reports through bad_.  Every
+        distinct failure signature is emitted once, suffixed with the set of member labels
+        that showed it (`all_label` when every label did), so that one defect is one
+        signature and a spelling-dependent result is visible as such."""
+        coll = {}
+        labels = []
+        for label, call in members:
+            if label not in labels:
+                labels.append(label)
+            call(lambda sig, detail, _l=label: coll.setdefault(sig, []).append((_l, detail)))
+        for sig, lst in coll.items():
+            failed = sorted(set(l for l, _ in lst))
+            if len(labels) == 1:
+                name = labels[0]
+            elif failed == sorted(labels):
+                name = all_label
+            else:
+                name = '+'.join(failed)
+            bad('%s:%s' % (sig, name), '[failing: %s] %s' % (', '.join(failed), lst[0][1]))
+        return not coll
+
+    def refused(bad_, vtag, fn, out=None):
         """unknown-id clause: fn must raise; no loadable output may be left behind"""
         acc.trans += 1
         acc.evals += 1
-        acc.count('clause:unknown-id-refused:' + vtag.split(':')[0])
+        acc.count('clause:unknown-id-refused:' + vtag)
         try:
             fn()
         except (Exception, SystemExit):
-            acc.count('refused:' + vtag.split(':')[0])
+            acc.count('refused:' + vtag)
             acc.outcomes.add(h64(('refused', vtag)))
         else:
-            bad('%s:unknown-id:accepted' % vtag, 'a request naming an id that is not in the file was '
-                'served instead of refused')
+            bad_('%s:unknown-id:accepted' % vtag, 'a request naming an id that is not in the file was '
+                 'served instead of refused')
         if out is not None and os.path.exists(out):
             try:
                 r = load_table(out)
             except (Exception, SystemExit):
                 pass
             else:
-                bad('%s:unknown-id:wrote-loadable-output' % vtag, 'output file exists and loads as a '
-                    '%r table' % (r.shape,))
+                bad_('%s:unknown-id:wrote-loadable-output' % vtag, 'output file exists and loads as a '
+                     '%r table' % (r.shape,))
 
-    def run_variant(vtag, fn, exp, nodrop, tail='', rtail=''):
-        """known ids: fn returns a Table that must equal exp.  `tail` is appended to comparison
-        and output signatures, `rtail` to 'raised' signatures (for D: tail carries axis and
-        spelling class – the two axes are sliced by different code –, rtail only the spelling
-        class, a refusal happens before axis-specific code)"""
+    def run_variant(bad_, vtag, fn, exp, nodrop, tail=''):
+        """known ids: fn returns a Table that must equal exp.  `tail` (the axis, for D whose two
+        axes are sliced by different code) is appended to comparison and output signatures, not
+        to 'raised' ones (a refusal happens before axis-specific code)."""
         acc.trans += 1
         acc.evals += 1
-        v = vtag.split(':')[0]
-        acc.count('clause:equals-load-then-filter:' + v)
+        acc.count('clause:equals-load-then-filter:' + vtag)
         try:
             r = fn()
         except _NotJson as e:
-            bad('%s:output-not-json%s' % (vtag, tail), 'json.loads rejects the output: %s; output=%r'
-                % (e, e.text[:400]))
+            bad_('%s:output-not-json%s' % (vtag, tail), 'json.loads rejects the output: %s; output=%r'
+                 % (e, e.text[:400]))
             return None
         except _Unloadable as e:
-            bad('%s:output-unloadable:%s%s' % (vtag, type(e.inner).__name__, tail),
-                'the written output cannot be loaded: %s; output=%r' % (e, (e.text or '')[:400]))
+            bad_('%s:output-unloadable:%s%s' % (vtag, type(e.inner).__name__, tail),
+                 'the written output cannot be loaded: %s; output=%r' % (e, (e.text or '')[:400]))
             return None
         except (Exception, SystemExit) as e:
-            bad('%s:raised:%s%s' % (vtag, type(e).__name__, rtail), _exc(e))
+            bad_('%s:raised:%s' % (vtag, type(e).__name__), _exc(e))
             return None
         got = snapshot(r)
-        P.state(acc, 'result', vtag, tail, got)
+        P.state(acc, 'result', vtag, got)
         acc.outcomes.add(h64(got))
-        if compare(bad, vtag, got, exp, nodrop, axis, tail):
-            acc.count('compared:' + v)
+        if compare(bad_, vtag, got, exp, nodrop, axis, tail):
+            acc.count('compared:' + vtag)
         return got
 
     # ================================================================ HDF5 side: A, B, E
@@ -402,24 +424,25 @@ def check(case, acc, tmp):
                 subset_table.callback(input_hdf5_fp=h5, input_json_fp=None, axis=axis, ids=idsf,
                                       output_fp=out)
             return f_
-        bforms = [('B:str-ids', list(want)), ('B:bytes-ids', [w.encode('utf-8') for w in want])]
+        bforms = [('str-ids', list(want)), ('bytes-ids', [w.encode('utf-8') for w in want])]
         if unk:
-            refused('A', A)
-            for vtag, ids in bforms:
-                refused(vtag, B(ids))
+            refused(bad, 'A', A)
+            family([(lab, lambda b_, ids=ids: refused(b_, 'B', B(ids))) for lab, ids in bforms],
+                   'both-id-forms')
             out = fresh('biom')
-            refused('E', Ecmd(out), out)
+            refused(bad, 'E', Ecmd(out), out)
         else:
             base = art['h5_base']
             e_drop = expect(base, axis, want, True)
             e_keep = expect(base, axis, want, False)
             if e_drop != e_keep:
                 acc.count('clause:drop-exercised')
-            run_variant('A', A, e_drop, e_keep)
+            run_variant(bad, 'A', A, e_drop, e_keep)
             e_b = expect(base, axis, want, False, with_md=False)
-            for vtag, ids in bforms:
-                acc.count('idform:' + vtag[2:])
-                run_variant(vtag, B(ids), e_b, None)
+            for lab, _ in bforms:
+                acc.count('idform:' + lab)
+            family([(lab, lambda b_, ids=ids: run_variant(b_, 'B', B(ids), e_b, None))
+                    for lab, ids in bforms], 'both-id-forms')
             out = fresh('biom')
 
             def E_split():
@@ -430,7 +453,7 @@ def check(case, acc, tmp):
                     return load_table(out)
                 except (Exception, SystemExit) as e:
                     raise _Unloadable(e)
-            run_variant('E', E_split, e_drop, e_keep)
+            run_variant(bad, 'E', E_split, e_drop, e_keep)
     else:
         acc.count('skipped:hdf5-variants')
 
@@ -441,48 +464,53 @@ def check(case, acc, tmp):
         if not unk:
             e_drop = expect(base, axis, want, True)
             e_keep = expect(base, axis, want, False)
-            run_variant('C:handle', lambda: parse_table(io.StringIO(text), ids=list(want), axis=axis),
-                        e_drop, e_keep)
-            run_variant('C:lines', lambda: parse_table(text.splitlines(True), ids=list(want), axis=axis),
-                        e_drop, e_keep)
-        all_equal = True
-        for name, cls, _ in SERS:
-            acc.count('ser:' + name)
-            s = art['spellings'][name]
-            inp = os.path.join(tmp, 'in_%s_%s.json' % (tag, name))
-            with open(inp, 'w', encoding='utf-8') as fh:
-                fh.write(s)
-            outs.append(inp)
-            out = fresh('json')
+            family([('handle', lambda b_: run_variant(
+                        b_, 'C', lambda: parse_table(io.StringIO(text), ids=list(want), axis=axis),
+                        e_drop, e_keep)),
+                    ('lines', lambda b_: run_variant(
+                        b_, 'C', lambda: parse_table(text.splitlines(True), ids=list(want), axis=axis),
+                        e_drop, e_keep))], 'both-input-forms')
 
-            def Dcmd():
-                subset_table.callback(input_hdf5_fp=None, input_json_fp=inp, axis=axis, ids=idsf,
-                                      output_fp=out)
-            if unk:
-                refused('D:%s' % cls, Dcmd, out)
-                continue
+        def D_member(name):
+            def call(bad_):
+                acc.count('ser:' + name)
+                inp = os.path.join(tmp, 'in_%s_%s.json' % (tag, name))
+                with open(inp, 'w', encoding='utf-8') as fh:
+                    fh.write(art['spellings'][name])
+                outs.append(inp)
+                out = fresh('json')
 
-            def D_split():
-                Dcmd()
-                with open(out, encoding='utf-8') as fh:
-                    res = fh.read()
-                acc.count('clause:D-output-is-json')
-                try:
-                    json.loads(res)
-                except ValueError as e:
-                    raise _NotJson(e, res)
-                acc.trans += 1
-                try:
-                    return parse_table(res.splitlines(True))
-                except (Exception, SystemExit) as e:
-                    raise _Unloadable(e, res)
-            got = run_variant('D', D_split, e_keep, None, ':%s:%s' % (axis, cls), ':%s' % cls)
-            if got != e_keep:
-                all_equal = False
+                def Dcmd():
+                    subset_table.callback(input_hdf5_fp=None, input_json_fp=inp, axis=axis, ids=idsf,
+                                          output_fp=out)
+                if unk:
+                    refused(bad_, 'D', Dcmd, out)
+                    return
+
+                def D_split():
+                    Dcmd()
+                    with open(out, encoding='utf-8') as fh:
+                        res = fh.read()
+                    acc.count('clause:D-output-is-json')
+                    try:
+                        json.loads(res)
+                    except ValueError as e:
+                        raise _NotJson(e, res)
+                    acc.trans += 1
+                    try:
+                        return parse_table(res.splitlines(True))
+                    except (Exception, SystemExit) as e:
+                        raise _Unloadable(e, res)
+                run_variant(bad_, 'D', D_split, e_keep, None, ':' + axis)
+            return call
+        # the eight spellings that differ in whitespace / key order only ...
+        same = family([(cls, D_member(name)) for name, cls, _ in SERS if cls != COLON], 'all-spellings')
+        # ... and the blank before every colon (DESIGN section 7, finding 22) on its own
+        family([(cls, D_member(name)) for name, cls, _ in SERS if cls == COLON], COLON)
         if not unk:
             acc.count('clause:D-identical-across-serialisations')
-            if all_equal:
-                acc.count('compared:D-all-9-identical')
+            if same:
+                acc.count('compared:D-all-8-identical')
     else:
         acc.count('skipped:json-variants')
     for p in outs + [idsf]:
@@ -523,7 +551,7 @@ def run(run):
         if not any(s.startswith(v + ':') for s in run.acc.viol):
             need.append('compared:' + v)
     if not any(s.startswith('D:') for s in run.acc.viol):
-        need.append('compared:D-all-9-identical')
+        need.append('compared:D-all-8-identical')
     vacuity(run, need)
     specs = table_specs(run.tier, run.seed)
     run.extra['bound'] = {
